@@ -157,6 +157,11 @@ def r5(ctx, fs):
         for io in f.get('inits') or ():
             if io.get('base') in ('ratio::constructor', 'ratio::predicate'):
                 init = canon(io['init'], None)
+                # the syntax tree may be built by a helper that the reviewed inventory does not know and that could not be put in its place: not readable here
+                for x in walk(io['init']):
+                    h = fs.fns.get(x.get('callee')) if x.get('callee') else None
+                    if h is not None and h.d.get('_new_helper'):
+                        raise AnalysisBroken('%s: the statements of the synthetic %s are built by %s, a helper this rule cannot see through' % (f.id, 'constructor' if 'constructor' in fn else 'predicate', h.id))
         s = show(init)
         geqs = [x for x in _subs(init) if isinstance(x, tuple) and x[0] == 'new*' and x[1] == 'ratio::ast::geq_expression']
         ok = False
